@@ -384,11 +384,34 @@ Record script := {
 
 (* the client's view of the filesystem: does os.OpenRoot(base) succeed, does
    Mkdir of a given leaf inside it succeed *)
-Record fsenv := { open_root_ok : bool; mkdir_ok : bytes -> bool }.
+(* what is at the created path when the client's Remove runs: other parties (the
+   server removes the directory itself in the normal protocol; anything running
+   with the client's uid, or root, may fill or replace it) act in between *)
+Inductive cleanup_state :=
+| CsEmptyDir        (* still the empty directory: Remove removes it *)
+| CsGone            (* already removed: Remove fails, nothing is there *)
+| CsNonEmptyDir     (* somebody put an entry inside: Remove fails, the directory stays *)
+| CsOtherObject.    (* replaced by a file or symlink of that name: Remove unlinks it *)
+Definition remove_clears (s : cleanup_state) : bool :=
+  match s with CsNonEmptyDir => false | _ => true end.
+
+Record fsenv := { open_root_ok : bool; mkdir_ok : bytes -> bool; at_cleanup : bytes -> cleanup_state }.
 
 Inductive effect :=
 | EMkdir (path : bytes) (ok : bool)     (* Mkdir attempted at [path] (mode 0700) *)
 | ERmdir (path : bytes).                (* Remove attempted at [path] *)
+
+(* paths that exist after the effects because of them (and did not before) *)
+Fixpoint left_from (st : bytes -> cleanup_state) (effs : list effect) (cur : list bytes) : list bytes :=
+  match effs with
+  | [] => cur
+  | EMkdir p true :: r => left_from st r (cur ++ [p])
+  | EMkdir _ false :: r => left_from st r cur
+  | ERmdir p :: r =>
+      left_from st r (if remove_clears (st p) then filter (fun q => negb (bytes_eqb p q)) cur else cur)
+  end.
+Definition left_behind (env : fsenv) (effs : list effect) : list bytes :=
+  left_from (at_cleanup env) effs [].
 
 Inductive ret := RetNil | RetErr (stage : N).
 Record xresult := { x_eff : list effect; x_reply : option Z; x_ret : ret }.
